@@ -18,6 +18,9 @@ import (
 
 func init() { props.Register("C09", props.Monitor{Level: "exploration", Run: Run}) }
 
+// MySQLLayer, when set, runs the MySQL part of the monitor (after the PostgreSQL part: Acra's SQL dialect is process-global).
+var MySQLLayer func(r *ev.Run)
+
 // Run is the C09 monitor.
 func Run(r *ev.Run) {
 	r.Rule = "sessions over 2 tables with 1-3 searchable columns each (both envelopes, with/without declared type): a population of 5-60 rows drawn from a small pool (duplicates, prefixes of each other, empty, 1/33/34/200-byte values) is written, then 20-50 statements whose WHERE uses a searchable column (col = v, v = col, col <> v; literal, cast, text/binary placeholder; AND/OR with other conditions and a second searchable column; two-table joins incl. joins ON searchable columns; UPDATE/DELETE ... WHERE) are sent through AcraServer and, identically, to a reference database holding plaintext; the delivered rows must be exactly the reference's. Blind indexes are read from storage: equal plaintexts <=> equal 33-byte prefixes, equal to the translator's query hash. Finally hashes of stored values are swapped by the database and re-read. distinct = (column class, condition form, protocol, parameter format, oracle) tuples"
@@ -30,6 +33,9 @@ func Run(r *ev.Run) {
 	n := r.Pick(60, 700)
 	for s := 0; s < n; s++ {
 		session(r, gen.New(r.Seed, fmt.Sprintf("c09-%d-%d", s, rng.Int63())), s)
+	}
+	if MySQLLayer != nil {
+		MySQLLayer(r)
 	}
 	r.RequireAtLeast("search_statements_equal_reference", 80)
 	r.RequireAtLeast("index_pairs_compared", 200)
